@@ -62,11 +62,12 @@ def pctEnc (s : Txt) : String :=
     then String.singleton (Char.ofNat c) else "%" ++ hexByte c)
 
 def showAtom : Atom → String
-  | .int i => "t" ++ pctEnc (txt (toString i))
+  | .int i => "t" ++ pctEnc (intText i)
   | .flt b => "f" ++ hexN 16 (if isNaN64 b then canonNaN64 else b)
   | .str s => "t" ++ pctEnc s
   | .scaled _ _ _ => "q"
   | .degrees _ => "g"
+  | .raw t => "r" ++ pctEnc t
 
 def showCell (withValues : Bool) (c : Cell) : String :=
   pctEnc c.name ++ "~" ++ toString c.val.length ++ "~" ++ pctEnc c.units ++
